@@ -96,6 +96,7 @@ type Engine struct {
 	failedLabels map[string]bool
 	unknownLabels map[string]int
 	abstractIDs   bool
+	lightDec      bool
 	reachPending map[string]string
 	lastPanic  *goPanic
 	collisionFree bool
